@@ -1,9 +1,20 @@
 import EmsModel.Core.Transect
+import EmsModel.Core.PathClip
+import EmsModel.Core.GeomProto
 import EmsModel.Core.Proto
 /-! Line-protocol driver for C18 (transects, path-parameter model).
 `segments <n=a:b,a:b;n=a:b…|->`            → `n,start,stop|…` in path order | `(none)`
-`columns  <layers v,v;v,v…> <linear idx,>` → rows `v,v;v,v` -/
-open Ems Ems.Proto
+`columns  <layers v,v;v,v…> <linear idx,>` → rows `v,v;v,v`
+`clip <ring> <path>`                       → `a:b,a:b…` | `-`: the stretches of the path inside the cell
+                                             (`clipPathConvex` for a convex ring, which must then agree with
+                                             `clipPathSimple`; `clipPathSimple` otherwise)
+`convex <ring>`                            → `1` | `0`
+`transect <path> <n=ring|n=ring…|->`       → as `segments`, the pieces being the Lean clips of the path
+                                             against every listed cell
+`propcheck <ring> <path>`                  → `ok` | `FAIL …`: ends and midpoint of every returned piece are
+                                             points of the path inside the closed ring (exact point-in-polygon)
+rings and paths: `x,y;x,y;…` -/
+open Ems Ems.Proto Ems.GeomProto
 
 def parsePieces? (s : String) : Option (List (Nat × List (Rat × Rat))) :=
   if s == "-" then some [] else
@@ -18,14 +29,42 @@ def parsePieces? (s : String) : Option (List (Nat × List (Rat × Rat))) :=
         some (n, ps)
     | _ => none)
 
+def parseCells? (s : String) : Option (List (Nat × Poly)) :=
+  if s == "-" then some [] else
+  Proto.allSome ((s.splitOn "|").map fun c =>
+    match c.splitOn "=" with
+    | [n, r] => do some ((← parseNat? n), (← parseRing? r))
+    | _ => none)
+
+def showPieces (ps : List (Rat × Rat)) : String :=
+  if ps.isEmpty then "-" else joinWith "," (ps.map fun p => s!"{showRat p.1}:{showRat p.2}")
+
+def showSegments (segs : List Segment) : String :=
+  if segs.isEmpty then "(none)" else
+  joinWith "|" (segs.map fun s => s!"{s.linear},{showRat s.start},{showRat s.stop}")
+
+/-- the clip of the path against one cell, or the two answers when the proved convex clipper and
+the event-based one differ on a convex ring -/
+def clipChecked (poly : Poly) (path : List Pt) : Except String (List (Rat × Rat)) :=
+  if convex poly then
+    let c := clipPathConvex poly path
+    let s := clipPathSimple poly path
+    if c == s then .ok c else .error s!"DISAGREE convex={showPieces c} simple={showPieces s}"
+  else .ok (clipPathSimple poly path)
+
+/-- the point of the path at parameter `t` (`none` outside `[0, n-1]`) -/
+def pathPointAt (path : List Pt) (t : Rat) : Option Pt :=
+  if t < 0 then none else
+  let k := min t.floor.toNat (path.length - 2)
+  match path[k]?, path[k + 1]? with
+  | some a, some b => if t - (k : Rat) ≤ 1 then some (legPoint a b (t - (k : Rat))) else none
+  | _, _ => none
+
 def step (line : String) : String :=
   match words line with
   | ["segments", pieces] =>
     match parsePieces? pieces with
-    | some ps =>
-      let segs := segments ps
-      if segs.isEmpty then "(none)" else
-      joinWith "|" (segs.map fun s => s!"{s.linear},{showRat s.start},{showRat s.stop}")
+    | some ps => showSegments (segments ps)
     | none => "BAD"
   | ["columns", layers, idx] =>
     match Proto.allSome ((layers.splitOn ";").map (parseIntList? ·)), parseNatList? idx with
@@ -33,6 +72,40 @@ def step (line : String) : String :=
       let segs : List Segment := ix.map fun n => { start := 0, stop := 0, linear := n }
       joinWith ";" ((transectColumns ls segs).map fun row =>
         joinWith "," (row.map fun v => match v with | some x => toString x | none => "ERR"))
+    | _, _ => "BAD"
+  | ["clip", ring, path] =>
+    match parseRing? ring, parseRing? path with
+    | some poly, some pts =>
+      match clipChecked poly pts with
+      | .ok ps => showPieces ps
+      | .error e => e
+    | _, _ => "BAD"
+  | ["convex", ring] =>
+    match parseRing? ring with
+    | some poly => if convex poly then "1" else "0"
+    | none => "BAD"
+  | ["transect", path, cells] =>
+    match parseRing? path, parseCells? cells with
+    | some pts, some cs =>
+      let clipped := cs.map fun c => (c.1, clipChecked c.2 pts)
+      match clipped.find? (fun c => match c.2 with | .error _ => true | .ok _ => false) with
+      | some (n, .error e) => s!"cell {n}: {e}"
+      | _ =>
+        showSegments (segments (clipped.map fun c => (c.1, match c.2 with | .ok ps => ps | .error _ => [])))
+    | _, _ => "BAD"
+  | ["propcheck", ring, path] =>
+    match parseRing? ring, parseRing? path with
+    | some poly, some pts =>
+      match clipChecked poly pts with
+      | .error e => e
+      | .ok ps =>
+        let bad := ps.filter fun p =>
+          !(p.1 < p.2) ||
+          !([p.1, (p.1 + p.2) / 2, p.2].all fun t =>
+              match pathPointAt pts t with
+              | some q => pointInPoly q poly && (!(convex poly) || insideConvexB poly q)
+              | none => false)
+        if bad.isEmpty then "ok" else s!"FAIL {showPieces bad}"
     | _, _ => "BAD"
   | _ => "BAD"
 
